@@ -278,6 +278,7 @@ package argmapper
 //@   ensures  [mirrors-struct-5] imp(result1 == nil, vsP5(result0, baseType(old(typ)), numField(baseType(old(typ)))))
 //@   ensures  [mirrors-struct-6] imp(result1 == nil, vsP6(result0, baseType(old(typ)), numField(baseType(old(typ)))))
 //@   ensures  [mirrors-struct-7] imp(result1 == nil, vsP7(result0, baseType(old(typ)), numField(baseType(old(typ)))))
+//@   ensures  [sound using mirrors-struct-1, mirrors-struct-6, mirrors-struct-7, inv2, field-type-non-nil] imp(result1 == nil, vsSound(result0))
 //@   ensures  [mirrors-struct-8] imp(result1 == nil, vsP8(result0, baseType(old(typ)), numField(baseType(old(typ)))))
 //@   ensures  [error-means-nil] imp(result1 != nil, result0 == nil)
 //@   assigns  ValueSet, Value, valueInternal, []*Value, map[string]*Value, map[reflect.Type]*Value, map[string]string, []string, []interface{}, reflect.StructField
@@ -350,6 +351,7 @@ package argmapper
 //@   ensures  [lifted] imp(count >= 1 && forall(i, int, imp(0 <= i && i < count, !isMarkerStruct(getT(get, i)))), result1 == nil && liftedVS(result0, get, count) && fresh(result0))
 //@   ensures  [error-means-nil] imp(result1 != nil, result0 == nil)
 //@   ensures  [well-formed] imp(result1 == nil, vsWF(result0))
+//@   ensures  [sound using newValueSetFromStruct.sound] imp(result1 == nil, vsSound(result0))
 //@   assigns  ValueSet, Value, valueInternal, []*Value, map[string]*Value, map[reflect.Type]*Value, map[string]string, []string, []interface{}, reflect.StructField, []reflect.StructField
 //@   modifies nothing
 //@   loop 1 invariant 0 <= i && i <= count && len(sf) == i && soff(sf) == 0 && (fresh(sf) || sf == nil)
@@ -366,6 +368,7 @@ package argmapper
 //@   ensures  [error-means-nil] imp(result1 != nil, result0 == nil)
 //@   ensures  [wraps-function] imp(result1 == nil, result0 != nil && fresh(result0) && f != nil && result0.fn == rvof(f) && kindof(dyntype(f)) == 19 && result0.onceResult == nil && result0.input != nil && result0.output != nil && fresh(result0.input) && fresh(result0.output) && result0.callOpts == opts)
 //@   ensures  [value-sets-well-formed] imp(result1 == nil, vsWF(result0.input) && vsWF(result0.output))
+//@   ensures  [func-ok using newValueSet.sound, newValueSet.well-formed, wraps-function] imp(result1 == nil, funcOK(result0))
 //@   ensures  [once-only-with-the-option] imp(result1 == nil, forall(i, int, imp(0 <= i && i < len(opts) && fncode(opts[i]) == litcode("argmapper.FuncOnce$1"), result0.once)) && imp(forall(i, int, imp(0 <= i && i < len(opts), fncode(opts[i]) != litcode("argmapper.FuncOnce$1"))), !result0.once))
 //@   ensures  [inputs-empty] imp(result1 == nil && numIn(dyntype(f)) == 0, emptyVS(result0.input))
 //@   ensures  [inputs-lifted-0] imp(result1 == nil && numIn(dyntype(f)) >= 1 && forall(i, int, imp(0 <= i && i < numIn(dyntype(f)), !isMarkerStruct(inType(dyntype(f), i)))), liftedL0(result0.input, methodval("reflect.(Type).In", dyntype(f)), numIn(dyntype(f))))
@@ -582,6 +585,7 @@ package argmapper
 //@   requires forall(i, int, imp(0 <= i && i < len(target), target[i] != nil))
 //@   ensures  [a-function] imp(result1 == nil, result0 != nil && fresh(result0) && valid(result0.fn) && kindof(rtypeof(result0.fn)) == 19 && result0.onceResult == nil && !result0.once)
 //@   ensures  [value-sets-well-formed] imp(result1 == nil, vsWF(result0.input) && vsWF(result0.output))
+//@   ensures  [func-ok using NewFunc.func-ok] imp(result1 == nil, funcOK(result0))
 //@   ensures  [identity-signature] imp(result1 == nil, numIn(rtypeof(result0.fn)) == len(target) && numOut(rtypeof(result0.fn)) == len(target) && forall(i, int, imp(0 <= i && i < len(target), inType(rtypeof(result0.fn), i) == target[i] && outType(rtypeof(result0.fn), i) == target[i])))
 //@   ensures  [error-means-nil] imp(result1 != nil, result0 == nil)
 //@   assigns  Func, argBuilder, NamedM, NamedSubM, TypedM, TypedSubM, []*Func, []ConverterGenFunc, ValueSet, Value, valueInternal, []*Value, map[string]*Value, map[reflect.Type]*Value, map[string]string, []string, []interface{}, reflect.StructField, []reflect.StructField, []Arg, rvstore, rvfresh
@@ -772,7 +776,7 @@ package argmapper
 //@ ghostvar nexecAtFinal int
 //@ ghostvar cachedAtFinal bool
 //@ func (*Func).Call
-//@   requires vsWF(f.input) && !planning
+//@   requires funcOK(f) && vsWF(f.input) && !planning
 //@   ensures  [resolution-failure-has-no-outputs-and-never-reaches-the-target] imp(!finalStep, result.buildErr != nil && len(result.out) == 0)
 //@   ensures  [failing-converter-error-returned-verbatim-target-not-reached] imp(failed != nil && !finalStep, result.buildErr == failed)
 //@   ensures  [target-with-missing-argument-not-executed] imp(finalStep && !cachedAtFinal && result.buildErr != nil, nexec == nexecAtFinal && len(result.out) == 0)
